@@ -21,7 +21,10 @@ import (
 	"github.com/ipfs/ipfs-cluster/allocator/descendalloc"
 	"github.com/ipfs/ipfs-cluster/api"
 
+	"github.com/ipfs/ipfs-cluster/version"
+
 	cid "github.com/ipfs/go-cid"
+	rpc "github.com/libp2p/go-libp2p-gorpc"
 
 	"verifharness/common"
 )
@@ -100,6 +103,7 @@ type env struct {
 	w    *world
 	cl   *ipfscluster.Cluster
 	cons *common.FaultConsensus
+	rpc  *rpc.Client // in-process client of the REAL rpc server (newRPCServer: ClusterRPCAPI of rpc_api.go)
 }
 
 func build(w *world, pre []*api.Pin) *env {
@@ -153,7 +157,12 @@ func build(w *world, pre []*api.Pin) *env {
 		ID: common.PeerN(0), Config: cfg, Consensus: cons, IPFS: ipfs, Monitor: mon, Allocator: alloc,
 		Informers: []ipfscluster.Informer{&common.NamedInformer{N: name}},
 	})
-	return &env{w: w, cl: cl, cons: cons}
+	e := &env{w: w, cl: cl, cons: cons}
+	if srv, err := ipfscluster.VerifNewRPCServer(cl); err == nil {
+		e.rpc = rpc.NewClientWithServer(nil, version.RPCProtocol, srv)
+		cl.VerifSetRPC(srv, e.rpc)
+	}
+	return e
 }
 
 func pathStr(k int) string { return fmt.Sprintf("/ipfs/%s/p%d", common.CidN(60), k) }
@@ -182,6 +191,25 @@ func (e *env) exec(op []string) (res string) {
 		p, err = e.cl.UnpinPath(ctx, pathStr(atoi(op[1])))
 	case "rpcpin":
 		p, _, err = e.cl.VerifPin(ctx, common.PinOf(op[1]), nil)
+	// the same requests entering where the REST API, the proxy, the adders and other peers enter: ClusterRPCAPI
+	case "rpc.pin", "rpc.unpin", "rpc.pinpath", "rpc.unpinpath", "rpc.pinget":
+		if e.rpc == nil {
+			return "norpc"
+		}
+		var out api.Pin
+		switch op[0] {
+		case "rpc.pin":
+			err = e.rpc.CallContext(ctx, "", "Cluster", "Pin", common.PinOf(op[1]), &out)
+		case "rpc.unpin":
+			err = e.rpc.CallContext(ctx, "", "Cluster", "Unpin", common.PinOf(op[1]), &out)
+		case "rpc.pinpath":
+			err = e.rpc.CallContext(ctx, "", "Cluster", "PinPath", &api.PinPath{PinOptions: common.OptsOf(op[2]), Path: pathStr(atoi(op[1]))}, &out)
+		case "rpc.unpinpath":
+			err = e.rpc.CallContext(ctx, "", "Cluster", "UnpinPath", &api.PinPath{PinOptions: common.OptsOf(op[2]), Path: pathStr(atoi(op[1]))}, &out)
+		case "rpc.pinget":
+			err = e.rpc.CallContext(ctx, "", "Cluster", "PinGet", common.CidN(atoi(op[1])), &out)
+		}
+		p = &out
 	default:
 		return "badop"
 	}
@@ -229,7 +257,13 @@ var stateToks = []string{"v0", "v1", "v1", "v2", "v5", "v7", "e", "i", "n", "a"}
 func genWorld(r *common.Rng) *world {
 	w := &world{paths: map[int]int{}, blocks: map[int][]int{}, lost: map[int][]int{}}
 	w.follower = r.Chance(1, 12)
-	switch r.Intn(5) {
+	switch r.Intn(8) {
+	case 5:
+		w.defMin, w.defMax = 3, 3
+	case 6:
+		w.defMin, w.defMax = 2, 2 + r.Intn(4)
+	case 7:
+		w.defMin, w.defMax = 1, 1 + r.Intn(6) // max may exceed the number of peers
 	case 0:
 		w.defMin, w.defMax = -1, -1
 	case 1:
@@ -420,7 +454,76 @@ func genOp(r *common.Rng, e *env) []string {
 	if (op[0] == "pin" || op[0] == "update" || op[0] == "pinpath") && r.Chance(1, 12) {
 		op = append(op, "!0")
 	}
+	if r.Chance(3, 10) {
+		op = viaRPC(r, e, op)
+	}
 	return op
+}
+
+// plainPin is the token of api.PinWithOpts(c, opts): what the REST API / proxy / ctl send to Cluster.Pin.
+func plainPin(c string, opts string) string {
+	o := strings.Split(opts, "/")
+	depth := "-1"
+	if o[2] == "d" {
+		depth = "0"
+	}
+	return strings.Join([]string{c, "d", o[0], o[1], o[2], depth, o[3], "-", o[4], o[5], o[6], o[7], "-", o[8]}, "/")
+}
+
+// viaRPC sends the same request through the real ClusterRPCAPI entry point. The pin object that accompanies an
+// Unpin and the options that accompany an UnpinPath are decorated at random (they must not matter). Faults at a
+// later consensus call of a sharded unpin (K41's signature names the direct call) become a fault at the first.
+func viaRPC(r *common.Rng, e *env, op []string) []string {
+	fault := ""
+	if n := len(op); strings.HasPrefix(op[n-1], "!") {
+		fault, op = op[n-1], op[:n-1]
+	}
+	var out []string
+	switch op[0] {
+	case "pin":
+		out = []string{"rpc.pin", plainPin(op[1], op[2])}
+	case "rpcpin":
+		out = []string{"rpc.pin", op[1]}
+	case "pinpath":
+		out = []string{"rpc.pinpath", op[1], op[2]}
+	case "unpin":
+		if r.Chance(1, 8) {
+			return []string{"rpc.pinget", op[1]}
+		}
+		o := "0:0/0/r/0/z/-/-/-/-"
+		if r.Chance(1, 2) {
+			o = strings.Join(randOpts(r, e.w), "/")
+		}
+		pt := plainPin(op[1], o)
+		if r.Chance(1, 3) { // a full pin object: type, allocations, reference
+			f := strings.Split(pt, "/")
+			f[1] = string("dmcs"[r.Intn(4)])
+			f[7] = randList(r, len(e.w.peers), 40)
+			if r.Bool() {
+				f[12] = strconv.Itoa(r.Intn(12))
+			}
+			pt = strings.Join(f, "/")
+		}
+		out = []string{"rpc.unpin", pt}
+		if fault != "" {
+			fault = "!0"
+		}
+	case "unpinpath":
+		o := "0:0/0/r/0/z/-/-/-/-"
+		if r.Chance(1, 2) {
+			o = strings.Join(randOpts(r, e.w), "/")
+		}
+		out = []string{"rpc.unpinpath", op[1], o}
+		if fault != "" {
+			fault = "!0"
+		}
+	default:
+		out = op
+	}
+	if fault != "" {
+		out = append(out, fault)
+	}
+	return out
 }
 
 func genOp0(r *common.Rng, e *env) []string {
